@@ -1051,44 +1051,86 @@ func concurrentCase(c *Case, lean *LeanDriver) Verdict {
 	if K > 32 {
 		K = 32
 	}
-	var wg sync.WaitGroup
-	errs := make(chan string, K)
-	for i := 0; i < K; i++ {
-		wg.Add(1)
-		go func(i int) {
-			defer wg.Done()
-			j := jobs[i%len(jobs)]
-			ctx, cancel := bg()
-			defer cancel()
-			q, err := j.c.NewQuery(eng, st)
-			if err != nil {
-				if j.solo.Kind != "err" {
-					errs <- "creation failed concurrently: " + err.Error()
+	errs := make(chan string, 2*K)
+	wave := func() {
+		var wg sync.WaitGroup
+		for i := 0; i < K; i++ {
+			wg.Add(1)
+			go func(i int) {
+				defer wg.Done()
+				j := jobs[i%len(jobs)]
+				ctx, cancel := bg()
+				defer cancel()
+				q, err := j.c.NewQuery(eng, st)
+				if err != nil {
+					if j.solo.Kind != "err" {
+						errs <- "creation failed concurrently: " + err.Error()
+					}
+					return
 				}
-				return
-			}
-			if i%5 == 4 && j.native {
-				// Cancel racing with Exec (the Prometheus engine's own query type has a
-				// race of its own between Cancel and Exec, so fallback queries are left alone)
-				go q.Cancel()
-			}
-			got := Canon(q.Exec(ctx), j.c)
-			q.Close()
-			if i%5 == 4 && got.Kind == "err" && ErrClass(got.Err) == "canceled" {
-				return
-			}
-			if df := Diff(got, j.solo); df != "" && !j.tie {
-				errs <- fmt.Sprintf("query %q run concurrently differs from its solo run: %s", j.c.Query, df)
-			}
-		}(i)
+				if i%5 == 4 && j.native {
+					// Cancel racing with Exec (the Prometheus engine's own query type has a
+					// race of its own between Cancel and Exec, so fallback queries are left alone)
+					go q.Cancel()
+				}
+				got := Canon(q.Exec(ctx), j.c)
+				q.Close()
+				if i%5 == 4 && got.Kind == "err" && ErrClass(got.Err) == "canceled" {
+					return
+				}
+				if df := Diff(got, j.solo); df != "" && !j.tie {
+					errs <- fmt.Sprintf("query %q run concurrently differs from its solo run: %s", j.c.Query, df)
+				}
+			}(i)
+		}
+		wg.Wait()
 	}
-	wg.Wait()
+	wave()
+	// Interlude: queries that end badly *after* they have produced part of their result - a storage
+	// error or a cancellation late in the evaluation - run on the same engine and are closed. Whatever
+	// the engine recycles on those paths (buffers, pooled slices) must not reach later queries:
+	// the second wave below has to give the solo results again.
+	for ji, j := range jobs {
+		if !j.native || j.solo.Kind == "err" || ji >= 4 {
+			continue
+		}
+		kinds, _ := countEvents(j.c)
+		if len(kinds) < 4 {
+			continue
+		}
+		for variant := 0; variant < 2; variant++ {
+			variant := variant
+			k := int64(len(kinds)*(6+2*variant)/10 + 1)
+			fst := NewMemStorage(c.Data())
+			ctx, cancel := bg()
+			var once int32
+			fst.SetHook(func(kind string, n int64, info any) Action {
+				if n >= k && atomic.CompareAndSwapInt32(&once, 0, 1) {
+					if variant == 1 {
+						cancel()
+						return Action{}
+					}
+					if errorCapable[kind] {
+						return Action{Err: errInjected}
+					}
+					atomic.StoreInt32(&once, 0)
+				}
+				return Action{}
+			})
+			if q, err := j.c.NewQuery(eng, fst); err == nil {
+				q.Exec(ctx)
+				q.Close()
+			}
+			cancel()
+		}
+	}
+	wave()
 	close(errs)
 	for e := range errs {
 		v.Other = e
 		break
 	}
-	v.Steps = K
+	v.Steps = 2 * K
 	return v
 }
 
